@@ -568,7 +568,18 @@ func (w *world) checkTransfer(name string, before snap, kind string, from, to, v
 				name, before.sh(from, v), after.sh(from, v), after.valShare[v]))
 			return class
 		}
-		if diff := sameDigest(before, after); len(diff) > 0 {
+		diff := sameDigest(before, after)
+		if name == "transferFromShares" {
+			// the spender's allowance (kept in the staking store) is consumed; everything else must stay
+			var d2 []string
+			for _, d := range diff {
+				if d != stakingtypes.StoreKey {
+					d2 = append(d2, d)
+				}
+			}
+			diff = d2
+		}
+		if len(diff) > 0 {
 			w.violate(fmt.Sprintf("%s with from == to changed stores %v (transfer to oneself must change nothing)", name, diff))
 		}
 		return class
